@@ -7,6 +7,7 @@ import (
 	"go/constant"
 	"go/token"
 	"go/types"
+	"os"
 	"math/big"
 	"sort"
 	"strings"
@@ -260,11 +261,24 @@ func (e *Enc) strLit(s string) string {
 func (e *Enc) typeID(t types.Type) int {
 	k := types.TypeString(t, nil)
 	if id, ok := e.typeIDs[k]; ok {
+		if e.typeOfID[id] == nil {
+			e.typeOfID[id] = t
+		}
 		return id
 	}
 	id := len(e.typeIDs) + 1
 	e.typeIDs[k] = id
 	e.typeOfID[id] = t
+	return id
+}
+
+// typeIDKey: the id of the named type whose types.TypeString is k (same numbering as typeID).
+func (e *Enc) typeIDKey(k string) int {
+	if id, ok := e.typeIDs[k]; ok {
+		return id
+	}
+	id := len(e.typeIDs) + 1
+	e.typeIDs[k] = id
 	return id
 }
 
@@ -341,6 +355,16 @@ func (e *Enc) typeFactsRec(t types.Type, L []string, st *State, fs *[]string) in
 			e.prelude("atype", "(declare-fun atype ("+m.smtSort(SI)+") "+m.smtSort(SI)+")")
 			e.assumptions["typed allocations: a struct type that no loaded package stores by value inside another value is only ever pointed at as a whole allocation (no unsafe pointer arithmetic)"] = true
 			*fs = append(*fs, implies(not(eq(L[0], z)), and(eq(L[1], z), eq("(atype "+L[0]+")", m.ilit(int64(id))))))
+		} else if ids := e.layoutTypeIDs(u.Elem()); len(ids) > 0 {
+			// a struct type that other named structs hold by value: the allocation is of the type itself or of one of
+			// the (named) types that contain it
+			e.prelude("atype", "(declare-fun atype ("+m.smtSort(SI)+") "+m.smtSort(SI)+")")
+			e.assumptions["typed allocations: a struct type that no loaded package stores by value inside another value is only ever pointed at as a whole allocation (no unsafe pointer arithmetic)"] = true
+			var alts []string
+			for _, id := range ids {
+				alts = append(alts, eq("(atype "+L[0]+")", m.ilit(int64(id))))
+			}
+			*fs = append(*fs, implies(not(eq(L[0], z)), or(alts...)))
 		}
 		return 2
 	case *types.Slice:
@@ -348,6 +372,17 @@ func (e *Enc) typeFactsRec(t types.Type, L []string, st *State, fs *[]string) in
 			implies(eq(L[0], z), and(eq(L[1], z), eq(L[3], z))), e.notGhost(L[0]))
 		if m == ModeInt {
 			*fs = append(*fs, "(<= "+L[3]+" 4611686018427387904)")
+		}
+		if ids := e.sliceLayoutTypeIDs(u.Elem()); len(ids) > 0 {
+			// the backing array is an allocation of elements of this type, or lies inside one of the named structs that
+			// hold an array of them by value
+			e.prelude("atype", "(declare-fun atype ("+m.smtSort(SI)+") "+m.smtSort(SI)+")")
+			e.assumptions["typed allocations: a struct type that no loaded package stores by value inside another value is only ever pointed at as a whole allocation (no unsafe pointer arithmetic)"] = true
+			var alts []string
+			for _, id := range ids {
+				alts = append(alts, eq("(atype "+L[0]+")", m.ilit(int64(id))))
+			}
+			*fs = append(*fs, implies(not(eq(L[0], z)), or(alts...)))
 		}
 		return 4
 	case *types.Interface:
@@ -1068,7 +1103,64 @@ func (e *Enc) standaloneTypeID(t types.Type) int {
 	if emb[key] {
 		return 0
 	}
+	if e.P.layoutInfo(); e.P.noLayout[key] {
+		return 0
+	}
 	return e.typeID(t) + 1000
+}
+
+// layoutTypeIDs: for a named struct type that is held by value inside other named structs, the allocation type ids
+// (same numbering as standaloneTypeID) of every type an allocation containing it can have; nil when unknown.
+func (e *Enc) layoutTypeIDs(t types.Type) []int {
+	n, ok := types.Unalias(t).(*types.Named)
+	if !ok || n.Obj().Pkg() == nil || n.Obj().Parent() != n.Obj().Pkg().Scope() || n.TypeArgs() != nil || n.TypeParams() != nil {
+		return nil
+	}
+	if _, isStruct := n.Underlying().(*types.Struct); !isStruct {
+		return nil
+	}
+	tops, ok := e.P.layoutTops(n.Obj().Pkg().Path() + "." + n.Obj().Name())
+	if os.Getenv("GOVC_DEBUG_LAYOUT") != "" {
+		fmt.Fprintf(os.Stderr, "layout %s: %v %v anon=%v\n", n.Obj().Name(), tops, ok, e.P.anonTop[n.Obj().Pkg().Path()+"."+n.Obj().Name()])
+	}
+	if !ok || len(tops) > 6 {
+		return nil
+	}
+	var ids []int
+	for _, k := range tops {
+		ids = append(ids, e.typeIDKey(k)+1000)
+	}
+	return ids
+}
+
+// sliceLayoutTypeIDs: the allocation type ids possible for the backing array of a slice with this element type.
+func (e *Enc) sliceLayoutTypeIDs(elem types.Type) []int {
+	for {
+		a, ok := types.Unalias(elem).Underlying().(*types.Array)
+		if !ok {
+			break
+		}
+		elem = a.Elem()
+	}
+	if _, isStruct := elem.Underlying().(*types.Struct); isStruct {
+		return e.layoutTypeIDs(elem)
+	}
+	if _, isTP := types.Unalias(elem).(*types.TypeParam); isTP {
+		return nil
+	}
+	k := arrayKey(elem)
+	if k == "" {
+		return nil
+	}
+	tops, ok := e.P.layoutTops(k)
+	if !ok || len(tops) > 6 {
+		return nil
+	}
+	var ids []int
+	for _, t := range tops {
+		ids = append(ids, e.typeIDKey(t)+1000)
+	}
+	return ids
 }
 
 // zeroArr is an array whose elements are all the zero value of sort s.
